@@ -83,6 +83,8 @@ def generate(seed, tier, prop):
                                        sorted_labels=True)
     T = rng.randint(3, 8)
     fault_free = rng.random() < 0.3
+    if meta["thermal"] and rng.random() < 0.12:
+        return _generate_heat_only(rng, seed, tier, prop, program, meta, T, fault_free)
     # controllers -------------------------------------------------------------------------
     loads = [l for l in meta["loads"] if l[2].endswith("mdot_kg_per_s") or l[2] == "qext_w"]
     ctrls, profiles = [], {}
@@ -203,6 +205,55 @@ def generate(seed, tier, prop):
             "knobs": {"fault_free": fault_free, "bad_steps": bad_steps}, "ops": []}
 
 
+def _generate_heat_only(rng, seed, tier, prop, program, meta, T, fault_free):
+    """Thermal-only time series: the hydraulic solution is calculated once and handed to every step (mode="heat",
+    sol_vec=...); the profiles only touch thermal quantities."""
+    cands = []
+    for o in program["ops"]:
+        t = netmodel.TABLE_OF.get(o["fn"])
+        kw = o["kw"]
+        if t == "ext_grid" and "t_k" in kw:
+            cands.append((t, kw["index"], "t_k", kw["t_k"]))
+        elif t in ("circ_pump_pressure", "circ_pump_mass") and "t_flow_k" in kw and kw.get("in_service", True):
+            cands.append((t, kw["index"], "t_flow_k", kw["t_flow_k"]))
+        elif t == "heat_exchanger":
+            cands.append((t, kw["index"], "qext_w", kw["qext_w"]))
+        elif t == "heat_consumer" and "qext_w" in kw and "controlled_mdot_kg_per_s" in kw:
+            cands.append((t, kw["index"], "qext_w", kw["qext_w"]))
+        elif t == "pipe" and "text_k" in kw:
+            cands.append((t, kw["index"], "text_k", kw["text_k"]))
+    ctrls, profiles = [], {}
+    for ci, (t, i, c, v) in enumerate(rng.sample(cands, min(len(cands), rng.randint(1, 3)))):
+        nm = "h%d" % ci
+        base = float(v) if v else 1000.0
+        profiles[nm] = [round(base * rng.uniform(0.97, 1.03), 6) if c in ("t_k", "t_flow_k", "text_k") else round(base * rng.uniform(0.5, 1.5), 4)
+                        for _ in range(T)]
+        ctrls.append({"element": t, "variable": c, "element_index": [i], "profile": [nm], "scale_factor": 1.0,
+                      "order": rng.choice([-1, 0, 1]), "level": rng.choice([-1, 0]), "initial_run": rng.random() < 0.3})
+    bad_steps = []
+    if not fault_free and ctrls and rng.random() < 0.6:
+        # a step whose temperature set point is missing: the thermal calculation of that step fails
+        tc = [c for c in ctrls if c["variable"] in ("t_k", "t_flow_k")]
+        if tc:
+            t_bad = rng.randrange(T)
+            profiles[tc[0]["profile"][0]][t_bad] = float("nan")
+            bad_steps.append(t_bad)
+    steps = list(range(T))
+    if rng.random() < 0.4:
+        steps = sorted(rng.sample(steps, rng.randint(2, T)))
+        if rng.random() < 0.5:
+            rng.shuffle(steps)
+    kw = {"mode": "heat", "iter": rng.choice([30, 60]), "use_numba": rng.random() < 0.5}
+    runs = [{"time_steps": steps, "form": "list", "cod": rng.random() < 0.7, "kw": kw, "max_iter": 30, "heat_only": True}]
+    logs = [["res_junction", "t_k"], ["res_pipe", "t_to_k"], ["res_pipe", "t_from_k"]]
+    if any(o["fn"] == "create_heat_consumer" for o in program["ops"]):
+        logs.append(["res_heat_consumer", "t_to_k"])
+    return {"engine": ENGINE, "prop": prop, "seed": seed, "tier": tier, "program": program, "meta": meta,
+            "controllers": ctrls, "profiles": profiles, "n_steps": T, "runs": runs, "faults": [], "user_opts": None,
+            "logs": logs, "observer": rng.random() < 0.5, "restart": None,
+            "knobs": {"fault_free": fault_free, "bad_steps": bad_steps, "heat_only": True}, "ops": []}
+
+
 # ==========================================================================================
 def _build_world(trace, with_observer):
     net = netmodel.build(trace["program"])
@@ -254,6 +305,29 @@ def _twin(trace, t, kw, solver):
     twin = netmodel.build(trace["program"])
     if trace.get("user_opts"):
         pp.set_user_pf_options(twin, **trace["user_opts"])
+    if kw.get("mode") == "heat":
+        # stand-alone counterpart of a thermal-only step: hydraulic solution of the net as built, then this step's
+        # values, then the thermal calculation from that solution
+        from .e1 import _sol_vec
+        hk = {k_: v_ for k_, v_ in kw.items() if k_ != "mode"}
+        solver.begin_calc([])
+        try:
+            pp.pipeflow(twin, mode="hydraulics", **hk)
+        except PipeflowNotConverged:
+            return twin, "nc"
+        except Exception as e:
+            return twin, "exc:" + type(e).__name__
+        sol = _sol_vec(twin)
+        for (el, i, var, val) in _step_values(trace, t):
+            if el in twin and i in twin[el].index:
+                twin[el].at[i, var] = val
+        try:
+            pp.pipeflow(twin, sol_vec=sol, **kw)
+            return twin, "ok"
+        except PipeflowNotConverged:
+            return twin, "nc"
+        except Exception as e:
+            return twin, "exc:" + type(e).__name__
     for (el, i, var, val) in _step_values(trace, t):
         if el in twin and i in twin[el].index:
             twin[el].at[i, var] = val
@@ -373,8 +447,16 @@ def _execute(trace, res, solver, fs):
         kw = copy.deepcopy(run["kw"])
         raised = None
         try:
-            run_timeseries(net, time_steps=arg_steps, continue_on_divergence=run["cod"], verbose=False,
-                           max_iter=run.get("max_iter", 30), **kw)
+            if run.get("heat_only"):
+                from .e1 import _sol_vec
+                hk = {k_: v_ for k_, v_ in kw.items() if k_ != "mode"}
+                pp.pipeflow(net, mode="hydraulics", **hk)
+                run_timeseries(net, time_steps=arg_steps, continue_on_divergence=run["cod"], verbose=False,
+                               max_iter=run.get("max_iter", 30), sol_vec=_sol_vec(net), **kw)
+                res.count("probe:heat-only-time-series")
+            else:
+                run_timeseries(net, time_steps=arg_steps, continue_on_divergence=run["cod"], verbose=False,
+                               max_iter=run.get("max_iter", 30), **kw)
         except Exception as e:
             raised = e
         finally:
